@@ -31,7 +31,7 @@ RULE = (
     "executed history is validated against the reference model 'fresh object fitted once on the last-fit data'"
 )
 LEVEL_TEXT = (
-    "exhaustive BFS of the operation graph to the stated depth for each of 10 subject classes; the invariant (answers = fresh "
+    "exhaustive BFS of the operation graph to the stated depth for each of 14 subject classes; the invariant (answers = fresh "
     "model's answers, inputs unmodified, underlying model intact after rotator/bootstrapper fit) is evaluated in every state"
 )
 ASSUMPTIONS = [
@@ -150,12 +150,13 @@ YOF = {"D1": "E1", "D2": "E2", "D3": "E3", "DnewA": "EnewA", "DnewB": "EnewB"}
 
 # ----------------------------------------------------------------------------- subjects
 
-SUBJECTS = ["EOF", "EOF2s", "EOFlist", "EOFlist2s", "SparsePCA", "POP", "OPA", "CPCCA", "MCA", "EOF+Rotator", "MCA+Rotator", "EOF+Bootstrapper"]
-TWO = {"EOF2s"}  # subjects whose data sets have two sample dimensions (time, run)
+SUBJECTS = ["EOF", "EOF2s", "EOFlist", "EOFlist2s", "SparsePCA", "POP", "OPA", "CPCCA", "MCA", "MCA2s", "multiCCA2s", "EOF+Rotator", "MCA+Rotator", "EOF+Bootstrapper"]
+TWO = {"EOF2s", "MCA2s", "multiCCA2s"}
+MULTI = {"multiCCA2s"}  # xeofs.multi.CCA on two views (no PCA step: it has no random_state); its API has no compute / serialize / inverse_transform  # subjects whose data sets have two sample dimensions (time, run)
 LIST = {"EOFlist", "EOFlist2s"}
 LIST2S = {"EOFlist2s"}  # two-item lists; group A: two sample dims (time, run), the items store the runs in different element order;
 #                          group B: ONE sample dim (time) - 'run' is a feature dim there and the two items cover different runs  # subjects fitted on lists (12 items in group A, 2 items in group B)
-CROSS = {"CPCCA", "MCA", "MCA+Rotator"}
+CROSS = {"CPCCA", "MCA", "MCA2s", "MCA+Rotator"}
 
 
 def new_system(subject):
@@ -173,8 +174,10 @@ def new_system(subject):
         s["model"] = xe.single.OPA(n_modes=2, tau_max=2, n_pca_modes=3, random_state=3)
     elif subject == "CPCCA":
         s["model"] = xe.cross.CPCCA(n_modes=2, alpha=0.5, use_pca=True, n_pca_modes=3, random_state=3)
-    elif subject in ("MCA", "MCA+Rotator"):
+    elif subject in ("MCA", "MCA2s", "MCA+Rotator"):
         s["model"] = xe.cross.MCA(n_modes=2, use_pca=True, n_pca_modes="all", random_state=3)
+    elif subject in MULTI:
+        s["model"] = xe.multi.CCA(n_modes=2, pca=False)
     if subject == "EOF+Rotator":
         s["rot"] = xe.single.EOFRotator(n_modes=3, power=1)
     if subject == "MCA+Rotator":
@@ -186,6 +189,9 @@ def new_system(subject):
 
 def ops_of(subject, tier_alphabet="full"):
     ops = ["fit:D1", "fit:D2", "fit:D3", "transform:fit", "transform:new", "inverse_transform", "components", "scores", "accessors:normalized", "metrics", "compute", "serialize", "transform:newlist"]
+    if subject in MULTI:
+        ops = ["fit:D1", "fit:D2", "transform:fit", "transform:new", "components", "scores", "metrics"]
+        return ops[:4] if tier_alphabet == "fit_transform" else ops
     if subject in LIST:
         # (de)serialising the per-item transformers of a 12-item list costs seconds: a reduced alphabet
         ops = ["fit:D1", "fit:D3", "transform:new", "inverse_transform", "compute", "serialize", "transform:newlist"]
@@ -218,7 +224,9 @@ def apply_op(subject, sys_, op, dsets, absstate):
     if op.startswith("fit:"):
         d = op[4:]
         dim = ("time", "run") if (subject in TWO or (subject in LIST2S and GROUP[d] == "A")) else "time"
-        if cross:
+        if subject in MULTI:
+            m.fit([dsets[d], dsets[YOF[d]]], dim=dim)
+        elif cross:
             m.fit(dsets[d], dsets[YOF[d]], dim=dim)
         else:
             m.fit(dsets[d], dim=dim)
@@ -228,6 +236,8 @@ def apply_op(subject, sys_, op, dsets, absstate):
         raise RuntimeError("operation on unfitted model is not in the alphabet")
     if op in ("transform:fit", "transform:new"):
         d = last if op.endswith("fit") else NEW[GROUP[last]]
+        if subject in MULTI:
+            return _call(m.transform, [dsets[d], dsets[YOF[d]]])
         if cross:
             return _call(m.transform, dsets[d], dsets[YOF[d]])
         return _call(m.transform, dsets[d])
@@ -285,6 +295,8 @@ def _metrics(subject, m):
         "OPA": ["decorrelation_time", "filter_patterns"],
         "CPCCA": ["squared_covariance_fraction", "cross_correlation_coefficients"],
         "MCA": ["squared_covariance_fraction", "covariance_fraction_CD95"],
+        "multiCCA2s": ["explained_variance", "explained_variance_ratio", "explained_covariance", "explained_covariance_ratio"],
+        "MCA2s": ["squared_covariance_fraction", "cross_correlation_coefficients", "fraction_variance_Y_explained_by_X"],
     }[subject.split("+")[0]]
     for n in names:
         out[n] = _call(getattr(m, n))
@@ -299,6 +311,11 @@ def answers(subject, m, dsets, last):
     a["scores"] = _call(m.scores)
     a.update({"metric." + k: v for k, v in _metrics(subject, m).items()})
     dn = NEW[GROUP[last]]
+    if subject in MULTI:
+        a["transform.fit"] = _call(m.transform, [dsets[last], dsets[YOF[last]]])
+        a["transform.new"] = _call(m.transform, [dsets[dn], dsets[YOF[dn]]])
+        a["weights"] = _call(m.weights)
+        return a
     if cross:
         a["transform.fit"] = _call(m.transform, dsets[last], dsets[YOF[last]])
         a["transform.new"] = _call(m.transform, dsets[dn], dsets[YOF[dn]])
@@ -332,7 +349,7 @@ def aux_answers(obj):
 @functools.lru_cache(maxsize=None)
 def reference(subject, last, seed, aux):
     """Answers of a fresh system fitted exactly once on `last` (then, optionally, aux fitted once)."""
-    dsets = datasets(seed, subject in CROSS, subject in TWO, "2s" if subject in LIST2S else subject in LIST)
+    dsets = datasets(seed, subject in CROSS or subject in MULTI, subject in TWO, "2s" if subject in LIST2S else subject in LIST)
     s = new_system(subject)
     st = {}
     with warnings.catch_warnings():
@@ -404,8 +421,8 @@ _STATS = {}
 
 def run_case(case, seed):
     subject, history = case["subject"], case["history"]
-    dsets = datasets(seed, subject in CROSS, subject in TWO, "2s" if subject in LIST2S else subject in LIST)
-    pristine = datasets(seed, subject in CROSS, subject in TWO, "2s" if subject in LIST2S else subject in LIST)
+    dsets = datasets(seed, subject in CROSS or subject in MULTI, subject in TWO, "2s" if subject in LIST2S else subject in LIST)
+    pristine = datasets(seed, subject in CROSS or subject in MULTI, subject in TWO, "2s" if subject in LIST2S else subject in LIST)
     s = new_system(subject)
     st = {}
     V = []
